@@ -168,3 +168,9 @@ def post_merge(m, tier):
     if len(t) == 168:
         m['counters']['all_168_layouts_observed'] = 1
     return {'distinct_layouts_observed': len(t), 'layouts_total': 168}
+
+
+def main_phase(tier, seed, rec):
+    """Thorough tier: the repository's own test-suite as one more workload under the same monitor."""
+    if tier == 'thorough':
+        common.suite_under_monitors({'C03'}, rec)
